@@ -423,9 +423,10 @@ func (s *Sym) quantifiedWellFormed(env *Env, v TV) {
 	}
 	// a read from a derived (define-fun) map: the fact follows from the one about the
 	// map it derives from, and the macro could not stand in a pattern anyway
+	derived := false
 	for _, tok := range strings.FieldsFunc(v.T, func(r rune) bool { return r == ' ' || r == '(' || r == ')' }) {
 		if s.definedNames[tok] {
-			return
+			derived = true // a macro cannot stand in a pattern: the solver picks its own
 		}
 	}
 	var decl []string
@@ -459,6 +460,13 @@ func (s *Sym) quantifiedWellFormed(env *Env, v TV) {
 	extra := ""
 	if v.S == "Slice" {
 		extra = fmt.Sprintf(" (>= (sl-len %s) 0) (=> (= (sl-arr %s) 0) (= (sl-len %s) 0))", v.T, v.T, v.T)
+	}
+	if derived && v.S != "Slice" {
+		return // references read from a derived map: the fact follows from the base map's
+	}
+	if derived {
+		s.emit(fmt.Sprintf("(assert (forall (%s) (and (>= %s 0) (<= %s %s)%s)))", strings.Join(decl, " "), t, t, s.top(env.st), extra))
+		return
 	}
 	s.emit(fmt.Sprintf("(assert (forall (%s) (! (and (>= %s 0) (<= %s %s)%s) :pattern (%s))))", strings.Join(decl, " "), t, t, s.top(env.st), extra, v.T))
 }
